@@ -11,10 +11,16 @@
         the other end sends <hex>; before every client read the OS delivers the next k bytes; after the list
         is used up everything left is delivered and read until the line is drained; output: the frames the client receive path
         extracts from the read results (`Reasm.run Serial.codec`), format of `reasm run`
+    pipe open <bytesize> <parity> <stopbits>
+        the settings of `Line.opened bytesize parity stopbits`, the line a `SerialDevice(port, baud, bytesize, parity,
+        stopbits)` opens; an argument `-` is one the caller leaves out (the constructor's default, translator facts
+        `Gen.SerialIntf.openDataBits / openParity / openStopBits`);
+        output: `ok bits=<n> parity=<c> stop=<n> xonxoff=<0|1> rtscts=<0|1> dsrdtr=<0|1>`
 -/
 import NxsModel.Driver.Basic
 import NxsModel.Driver.Reasm
 import NxsModel.Pipe
+import NxsModel.PipeLine
 namespace Nxs.Driver
 open Nxs Nxs.Pipe
 
@@ -41,7 +47,17 @@ def obsStr : Obs → String
 def stateStr (s : State) : String :=
   s!"pad={s.pad} rxf={s.rxFlight.hex} rxw={s.rxWaiting.hex} txf={s.txFlight.hex} txw={s.txWaiting.hex}"
 
+def bit01 (b : Bool) : String := if b then "1" else "0"
+
+def lineStr (l : Line) : String :=
+  s!"bits={l.dataBits} parity={l.parity} stop={l.stopBits} xonxoff={bit01 l.xonxoff} rtscts={bit01 l.rtscts} dsrdtr={bit01 l.dsrdtr}"
+
 def pipeOp : List String → Option String
+  | ["open", b, p, sb] => do
+    let b ← if b = "-" then some Gen.SerialIntf.openDataBits else natArg b
+    let p := if p = "-" then Gen.SerialIntf.openParity else p
+    let sb ← if sb = "-" then some Gen.SerialIntf.openStopBits else natArg sb
+    pure ("ok " ++ lineStr (Line.opened b p sb))
   | ["run", p, ops] => do
     let p ← natArg p
     let ops ← (ops.splitOn ";").mapM pipeOpArg
